@@ -18,7 +18,11 @@
 EXTENDS Naturals, Integers, Sequences, FiniteSets, TLC, Json
 
 CONSTANTS Weights,   \* set of small natural weights, 0 included
-          MaxSize    \* bound on the number of elements
+          MaxSize,   \* bound on the number of elements
+          Drift      \* FALSE: exact arithmetic (integer weights, what the replay uses).
+                     \* TRUE: additionally allow update() to propagate a weight change that is
+                     \* off by one unit, the way a rounded `w - old` is (design-level model of
+                     \* floating-point weights; only the *Drift invariants are meant for it)
 
 VARIABLES data, rows, lastAct
 
@@ -123,6 +127,16 @@ Update(s, w) ==
     /\ UNCHANGED data
     /\ Act("Update", [pos |-> s, w |-> w], Lab(data))
 
+(* update() with a rounded weight change: the leaf gets w exactly (tree_.front()[index] = w), *)
+(* the inner nodes get change + e                                                            *)
+UpdateDrift(s, w, e) ==
+    /\ Drift /\ s \in 1..Len(data) /\ w # rows[1][s]
+    /\ LET index == Lab(data)[s].ix
+           change == w - rows[1][index + 1]
+       IN  rows' = Propagate([rows EXCEPT ![1][index + 1] = w], index, change + e)
+    /\ UNCHANGED data
+    /\ Act("UpdateDrift", [pos |-> s, w |-> w, e |-> e], Lab(data))
+
 Remove(s) ==
     /\ s \in 1..Len(data)
     /\ IF Len(data) = 1
@@ -144,6 +158,7 @@ Next ==
     \/ \E s \in 1..Len(data), w \in Weights : Update(s, w)
     \/ \E s \in 1..Len(data) : Remove(s)
     \/ Clear
+    \/ \E s \in 1..Len(data), w \in Weights, e \in {-1, 1} : UpdateDrift(s, w, e)
 
 Spec == Init /\ [][Next]_vars
 
@@ -181,6 +196,23 @@ SampleRefines ==
                 LET k == Descent(rows, j) + 1
                 IN  /\ k \in 1..Len(data)            \* data_[node] inside the storage
                     /\ k \in adm[j + 1]
+
+(* ---- the two clauses that need no exact sums, for the Drift model.  The descent is      *)
+(* re-stated with a guard so that stepping outside a row is a value (-1), not a TLC error.  *)
+RECURSIVE DescG(_, _, _, _)
+DescG(t, row, node, r16) ==
+    IF row = 0 THEN node
+    ELSE IF 2 * node + 1 > Len(t[row]) THEN -1       \* tree_[row-1][node<<1] does not exist
+    ELSE LET left == 16 * t[row][2 * node + 1]
+         IN  IF r16 > left THEN DescG(t, row - 1, 2 * node + 1, r16 - left)
+             ELSE DescG(t, row - 1, 2 * node, r16)
+DescentG(t, j) == DescG(t, Len(t) - 1, 0, j * Last(t)[1])
+
+SampleInStorageDrift ==
+    Len(data) > 0 => \A j \in Sixteenths : DescentG(rows, j) \in 0..Len(data) - 1
+NoZeroWeightDrawnDrift ==
+    (Len(data) > 0 /\ C!Total(Listed(rows)) > 0) =>
+        \A j \in 1..15 : LET k == DescentG(rows, j) IN k \in 0..Len(data) - 1 => rows[1][k + 1] > 0
 
 (* every step changes the listed elements as the contract says; labels (handles) of      *)
 (* survivors keep their weights                                                           *)
